@@ -53,7 +53,7 @@ from fpy2.transform import ConstFold, CopyPropagate, DeadCodeEliminate
 NSHARDS = 64
 BATCH = 40
 SLICES = 8                    # the quick tier adds 1/SLICES of the next size, chosen by the seed
-CALL_TIMEOUT = 20.0           # seconds; four orders of magnitude above a normal call
+CALL_TIMEOUT = 10.0           # seconds; four orders of magnitude above a normal call
 TRANSFORM_TIMEOUT = 30.0
 
 SWITCHES = ('enable_const_fold', 'enable_const_fold_context', 'enable_const_fold_op',
@@ -844,10 +844,6 @@ class Check(BaseCheck):
         if not refs:
             r.count('programs_never_returning')
             return
-        try:
-            base_text = fn.format()
-        except Exception:  # noqa: BLE001
-            base_text = None
         variants: dict[str, list] = {}      # transformed text -> [Function, [tids]]
         for tid in transforms:
             r.count('transitions')
@@ -865,8 +861,12 @@ class Check(BaseCheck):
                 self._report(r, fam, size, src, tid, refs[0][0], refs[0][1],
                              ('exc', type(e).__name__, str(e)[:160]), fn, collect, stage='transform')
                 continue
+            # transformations that produce the same program are run once
             text = g.format()
             slot = variants.get(text)
+            while slot is not None and not slot[0].ast.is_equiv(g.ast):
+                text += '#'                   # same text, different tree: keep both
+                slot = variants.get(text)
             if slot is None:
                 variants[text] = [g, [tid]]
             else:
@@ -886,6 +886,8 @@ class Check(BaseCheck):
                     r.count('mismatching_cases', len(tids))
                     if bad is None:
                         bad = (args, ref, got)
+                    if got[0] == 'timeout':
+                        break                 # do not wait out the limit once per input
             if bad is not None:
                 # one report per (program, distinct transformed text); the shortest pipeline names it
                 tid = min(tids, key=lambda t: (len(t), t))
